@@ -49,6 +49,12 @@ class Body(object):
         self.qname = None  # filled by Facts
         self.closures = []  # child closure bodies (direct)
 
+    @property
+    def api(self):
+        """Can a user of the crate name or be handed this function?  (A nominally `pub` item of a private module cannot.)"""
+        r = self.raw
+        return bool(r["exported"]) if "exported" in r else bool(r.get("pub"))
+
     def loc(self, bb=None):
         if bb is None:
             sp = self.span
